@@ -1164,3 +1164,15 @@ S("seed-C16-f", ["C16"], "seeded/C16-f/patch.diff", [("C16", "C16-R11", "_get_pr
 TP("t-string-index-fast-path", ALL_PROPS, "selftest/patches/t-string-index-fast-path.diff", note="the same fast path entered with type(key) is int (repaired C16-f)")
 S("seed-C18-f", ["C18"], "seeded/C18-f/patch.diff", [("C18", "C18-R15", "_fraction_to_base")], note="fraction digits in a helper that takes the ulp of the fraction instead of the number")
 TP("t-fraction-digits-helper", ALL_PROPS, "selftest/patches/t-fraction-digits-helper.diff", note="the same helper given the number's own spacing (repaired C18-f)")
+M("c08-computed-identifier-key-as-name", ["C08"], CO,
+  "                if isinstance(prop.key, Identifier) and not prop.computed:\n", "                if isinstance(prop.key, Identifier):\n",
+  [("C08", "C08-R17", "prop.key")], note="fix 4ee0b2a reverted")
+M("c08-arrow-this-not-used", ["C08"], VM,
+  "        if hasattr(func, \"_lexical_this\"):\n            # An arrow function: call form, call/apply and bind do not matter\n            this_val = func._lexical_this\n", "",
+  [("C08", "C08-R18", "arrow-this-used")], note="fix 9be7359 reverted at the call: the remembered this is never used")
+M("c08-arrow-this-not-captured", ["C08"], VM,
+  "                    js_func._lexical_this = frame.this_value\n", "                    pass\n",
+  [("C08", "C08-R18", "this-captured")], note="fix 9be7359 reverted at closure creation")
+M("c08-arrow-not-marked", ["C08"], CO,
+  "            is_arrow=True,\n", "",
+  [("C08", "C08-R18", "arrow:marked")], note="arrow code objects no longer marked")
